@@ -10,7 +10,7 @@ FEATURES = ["mass", "length", "duration", "area", "volume", "speed", "accelerati
             "datavolume", "datathroughput", "temperature"]
 RULE = ("a probe crate with the same feature names (each forwarding only to quantities/<feature>) whose main, under cfg(feature), names the "
         "module, applies the declared derivation operators of that quantity and prints a fixed operation corpus (all unit pairs: conversion, "
-        "comparison, + - /, formatting) as events; built and run for the 14 features individually, all jointly and none x {std, no std} x "
+        "comparison, + - /, formatting; Temperature and two user-defined macro types: all unit pairs incl. ties with panics captured) as events; built and run for the 14 features individually, all jointly and none x {std, no std} x "
         "{f64, Decimal} x {serde on, off}; quick = 16 sets in the default variant + the 8 variants of 'all' and 'none' (30 builds), thorough = "
         "all 128; build verdict must be success; per back-end the event segment of each quantity must be identical in every configuration "
         "that contains it; cell = configuration; non-trivial = configurations with at least one quantity feature")
@@ -89,6 +89,41 @@ where
     }
 }
 
+/// quantities without reference unit: every ordered unit pair, comparisons and + - / with the panic captured as an event
+fn noref_corpus<Q>(tag: &str)
+where
+    Q: Quantity + Display + PartialOrd + Add<Output = Q> + Sub<Output = Q> + Div<Output = AmountT> + std::panic::UnwindSafe + 'static,
+    Q::UnitType: Debug,
+{
+    fn ev<T: Display, F: FnOnce() -> T + std::panic::UnwindSafe>(f: F) -> String {
+        std::panic::catch_unwind(f).map(|v| format!("{}", v)).unwrap_or_else(|_| "panic".to_string())
+    }
+    let us: Vec<Q::UnitType> = Q::iter_units().collect();
+    for u in &us {
+        for v in &us {
+            for (x, y) in [(Amnt!(2.5), Amnt!(40)), (Amnt!(7), Amnt!(7)), (Amnt!(0), Amnt!(-3))] {
+                let a = Q::new(x, *u);
+                let b = Q::new(y, *v);
+                println!("{tag}|ncmp|{:?}|{:?}|{}|{:?}|{}|{}|{}|{}|{}", u, v, x == y, PartialOrd::partial_cmp(&a, &b), a == b, a < b, a <= b, a > b, a >= b);
+                println!("{tag}|narith|{:?}|{:?}|{}|{}|{}|{}", u, v, x == y, ev(move || a + b), ev(move || a - b), ev(move || a / b));
+            }
+        }
+    }
+}
+
+/// user-defined quantities exist in every configuration
+#[quantity]
+#[unit(Alpha, "al", "alpha")]
+#[unit(Beta, "be", "beta")]
+#[unit(Gamma, "ga", "gamma")]
+struct Udef {}
+
+#[quantity]
+#[ref_unit(Uref, "ur", "uref")]
+#[unit(Kilouref, "kur", KILO, 1000, "1000·ur")]
+#[unit(Halfuref, "hur", 0.5, "ur/2")]
+struct Urq {}
+
 /// with serialisation support enabled the quantity and its unit type must be (de)serialisable
 #[cfg(feature = "serde")]
 fn serde_corpus<Q>(tag: &str)
@@ -117,6 +152,12 @@ fn section<F: FnOnce() + std::panic::UnwindSafe>(tag: &str, f: F) {
 fn main() {
     std::panic::set_hook(Box::new(|_| {}));
     println!("base|amount|{}|{}", Amnt!(1.5) * ONE, SIPrefix::from_abbr("k").map(|p| p.exp()).unwrap_or(0));
+    section("udef", || {
+        noref_corpus::<Udef>("udef");
+        corpus::<Urq>("udef");
+        serde_corpus::<Udef>("udef");
+        serde_corpus::<Urq>("udef");
+    });
     #[cfg(feature = "mass")]
     section("mass", || {
         use quantities::mass::*;
@@ -275,6 +316,7 @@ fn main() {
             println!("temperature|conv|{:?}|{:?}", u, TEMPERATURE_CONVERTER.convert(&t, u).map(|x| format!("{}", x)));
         }
         serde_corpus::<Temperature>("temperature");
+        noref_corpus::<Temperature>("temperature");
         println!("temperature|ops|{}|{}|{}|{:?}", t + t, t - t, t / t, PartialOrd::partial_cmp(&t, &(Amnt!(70) * DEGREE_FAHRENHEIT)));
     });
     println!("done|end");
@@ -381,7 +423,7 @@ def main(tier, seed, nproc, t0):
             tags.setdefault(l.split("|", 1)[0], []).append(l)
         present = [t for t in tags if t in FEATURES]
         if cfg["serde"]:
-            sp = sorted(t[:-6] for t in tags if t.endswith("+serde"))
+            sp = sorted(t[:-6] for t in tags if t.endswith("+serde") and t != "udef+serde")
             if sp != sorted(cfg["features"]):
                 viol("serde_exposure", "serialisation segments %s, enabled quantities %s" % (sp, sorted(cfg["features"])))
             for t in tags:
